@@ -6,11 +6,13 @@
 (* strings every chunking, against these vectors.                              *)
 EXTENDS Strip, TLC, Json
 CONSTANTS N, Mode, First
-ByteAlphabet == ClassReps \cup {9, 10, 13, 109, 49, 58, 59, 92, 143, 159, 160, 191, 192, 193,
+\* (11 = VT and 12 = FF: the table has one class for C0 controls, but the CODE also asks "is it ASCII whitespace", which
+\*  separates TAB LF FF CR from VT)
+ByteAlphabet == ClassReps \cup {9, 10, 11, 12, 13, 109, 49, 58, 59, 92, 143, 159, 160, 191, 192, 193,
                                 194, 223, 224, 237, 240, 244, 245, 255}
 \* scalar values: controls, sequence introducers/finals, text, and characters whose UTF-8
 \* encoding contains bytes that are C1 controls when read alone (U+009C = C2 9C, U+2705 = E2 9C 85)
-CpAlphabet == {0, 7, 9, 10, 24, 27, 32, 49, 59, 63, 80, 88, 91, 92, 93, 97, 109, 127,
+CpAlphabet == {0, 7, 9, 10, 11, 12, 24, 27, 32, 49, 59, 63, 80, 88, 91, 92, 93, 97, 109, 127,
                128, 156, 233, 8364, 9989, 65533, 128512}
 Alphabet == IF Mode = "bytes" THEN ByteAlphabet ELSE CpAlphabet
 VARIABLES hist
